@@ -662,7 +662,7 @@ example : HistOk resetSt hist ∧
     (histFrames resetSt hist).map (fun p => (p.1.lossCnt, p.1.prevSignalType, p.1.lagPrev, p.1.pitchLQ8, p.1.plcFs)) =
       [(0, 0, 100, 0, 0), (0, 2, 285, 72960, 16), (1, 2, 288, 73728, 16), (2, 2, 288, 73728, 16), (0, 0, 100, 73728, 16),
        (1, 0, 100, 10445, 8)] ∧
-    (histFrames resetSt hist).map (fun p => (frameStep p.1 p.2).1.all.length) = [127, 68, 67, 92, 61, 44] := by
+    (histFrames resetSt hist).map (fun p => (frameStep p.1 p.2).1.all.length) = [127, 68, 67, 93, 61, 45] := by
   decide +kernel
 
 end OpusProps.C18
